@@ -1,10 +1,37 @@
 //! native side of layer T:
 //!   tenum enumerate <schema>          every table within the schema's bounds; prints T-PASS / T-FAIL
 //!   tenum replay <schema> k=v ...     one recorded table
+//!   tenum diff <schema> <twin> <n> <full|noerr>        every table: the REAL runs of a schema and of its differential twin must agree
+//!   tenum replay-diff <schema> <twin> <full|noerr> k=v ...
 use schema_harness::*;
 use schema_harness::ops::*;
 
 include!(concat!(env!("SCHEMA_GEN_DIR"), "/dispatch.rs"));
+
+/// first observable difference between two real runs (None: they agree). `full`: also the reported error position / sentinel.
+fn obs_diff(a: &Obs, b: &Obs, full: bool) -> Option<&'static str> {
+    if a.ok != b.ok { return Some(if a.ok { "accepts where the twin rejects" } else { "rejects where the twin accepts" }); }
+    if a.ok {
+        if a.end != b.end { return Some("consumes a different number of bytes than the twin"); }
+        let mut i = 0;
+        while i < NFLD { if a.f[i] != b.f[i] { return Some("returns a different tree than the twin"); } i += 1; }
+        if a.x != b.x { return Some("records different positions / strings than the twin"); }
+    } else if full {
+        if a.err != b.err { return Some("reports a different error position than the twin"); }
+        if a.sentinel != b.sentinel { return Some("reports a different error detail (left-recursion sentinel) than the twin"); }
+    }
+    None
+}
+fn run_diff(name: &str, twin: &str, t: &Tables, full: bool) -> Result<Option<&'static str>, &'static str> {
+    let a = std::panic::catch_unwind(|| real_obs(name, t));
+    let b = std::panic::catch_unwind(|| real_obs(twin, t));
+    match (a, b) {
+        (Ok(a), Ok(b)) => Ok(obs_diff(&a, &b, full)),
+        (Err(_), Ok(_)) => Ok(Some("panics where the twin does not")),
+        (Ok(_), Err(_)) => Ok(Some("does not panic where the twin panics")),
+        (Err(_), Err(_)) => Ok(None),
+    }
+}
 
 fn main() {
     std::panic::set_hook(Box::new(|_| {}));
@@ -68,6 +95,40 @@ fn main() {
                 Ok((Ok(()), _, _)) => println!("T-REPLAY-PASS {name} tables={}", describe(&t)),
                 Ok((Err((prop, what)), _, _)) => { println!("T-REPLAY-FAIL {name} prop={prop} what={what:?} tables={}", describe(&t)); std::process::exit(1); }
                 Err(_) => { println!("T-REPLAY-FAIL {name} prop=C04 what=\"generated parser panicked\" tables={}", describe(&t)); std::process::exit(1); }
+            }
+        }
+        Some("diff") => {
+            let (name, twin) = (&args[2], &args[3]);
+            let (nmax, alphabet, ops, nchk) = bounds(name).expect("unknown schema");
+            let nmax = args.get(4).and_then(|s| s.parse().ok()).map(|x: usize| x.min(nmax)).unwrap_or(nmax);
+            let full = args.get(5).map(|s| s == "full").unwrap_or(true);
+            let mut od = Odometer::new(nmax, alphabet, ops, nchk);
+            let (mut total, mut valid, mut nontrivial) = (0u64, 0u64, 0u64);
+            let mut first: Option<String> = None;
+            let mut ndiff = 0u64;
+            while od.next() {
+                total += 1;
+                let t = od.t;
+                if !is_valid(name, &t) || !is_valid(twin, &t) { continue; }
+                valid += 1;
+                if t.n >= 1 { nontrivial += 1; }
+                if let Ok(Some(what)) = run_diff(name, twin, &t, full) {
+                    ndiff += 1;
+                    if first.is_none() { first = Some(format!("T-DIFF {name} twin={twin} what={what:?} after={valid} tables={} kv={}", describe(&t), tables_kv(&t))); }
+                }
+            }
+            if let Some(l) = &first { println!("{l}"); }
+            println!("T-DIFF-{} {name} twin={twin} n<={nmax} tables={total} valid={valid} nontrivial={nontrivial} differing={ndiff}", if first.is_none() { "PASS" } else { "DONE" });
+            if first.is_some() { std::process::exit(1); }
+        }
+        Some("replay-diff") => {
+            let (name, twin) = (&args[2], &args[3]);
+            let full = args[4] == "full";
+            let t = tables_from_kv(&args[5..]);
+            if !is_valid(name, &t) || !is_valid(twin, &t) { println!("T-REPLAY-INVALID {name}"); std::process::exit(2); }
+            match run_diff(name, twin, &t, full) {
+                Ok(Some(what)) => { println!("T-REPLAY-FAIL {name} prop=DIFF what={what:?} tables={}", describe(&t)); std::process::exit(1); }
+                _ => println!("T-REPLAY-PASS {name} tables={}", describe(&t)),
             }
         }
         _ => { eprintln!("usage: tenum list | enumerate <schema> [n] | replay <schema> k=v.."); std::process::exit(2); }
